@@ -5,6 +5,7 @@ import (
 	"os"
 	"path/filepath"
 	"sort"
+	"strconv"
 	"strings"
 	"sync"
 	"time"
@@ -28,6 +29,48 @@ type concScenario struct {
 	// After[i] = "<cmd index>:<event kind>": command i starts when that command has logged the event
 	// (absent: starts at once).
 	After map[int]string
+	// Release[i] = "<point>:<cmd index j>": command i is held at that failpoint (action hold) until the
+	// link step of command j is blocked in flock(2) on the linker lock (or has finished); the monitor
+	// then creates the release file. The schedule is decided by observed process state, not by a delay.
+	Release map[int]string
+}
+
+// linkStepState polls the link toolexec process of a command (pid from its toolexec.begin event):
+// "blocked" once one of its threads sits in flock(2) on two consecutive polls, "finished" when the
+// step has ended, "timeout" otherwise.
+func linkStepState(logDir string, max time.Duration) string {
+	deadline := time.Now().Add(max)
+	streak := 0
+	for time.Now().Before(deadline) {
+		pid := 0
+		for _, e := range readEvents(logDir) {
+			if e.Kind == "toolexec.begin" && e.Str("tool") == "link" && e.Pkg != "" {
+				pid = e.Pid
+			}
+			if e.Kind == "toolexec.end" && e.Str("tool") == "link" && e.Pid == pid && pid != 0 {
+				return "finished"
+			}
+		}
+		inFlock := false
+		if pid != 0 {
+			tasks, _ := filepath.Glob(fmt.Sprintf("/proc/%d/task/*/syscall", pid))
+			for _, t := range tasks {
+				if data, err := os.ReadFile(t); err == nil && strings.HasPrefix(string(data), "73 ") { // SYS_FLOCK on amd64
+					inFlock = true
+				}
+			}
+		}
+		if inFlock {
+			streak++
+			if streak >= 2 {
+				return "blocked"
+			}
+		} else {
+			streak = 0
+		}
+		time.Sleep(40 * time.Millisecond)
+	}
+	return "timeout"
 }
 
 func concProjects(seed int64) map[string]*Prog {
@@ -91,7 +134,7 @@ var cacheModel = porcupine.Model{
 
 func checkC17(c *Ctx) {
 	c.SetRule("scenarios of N in {2,3,4,8} garble builds started at the same instant over one shared GOCACHE, GARBLE_CACHE and TMPDIR: identical commands, commands differing in flags (-tiny) and in project, with -p in {1,2,16}; start states: warm cache with a new program, warm cache with the patched linker deleted, stale linker stamp, garble-cold (plain std only), fully cold (nothing, not even the linker); " +
-		"failpoints (hook sleeps after the linker build, before the stamp, before package-cache writes) widen the windows. Oracles: every command exits 0 and its binary's sha256 equals the same command's isolated build; every linker digest executed (link.exec events) equals the digest of a completely built linker (link.build.end) or of the pre-existing one; " +
+		"failpoints (hook sleeps after the linker build, before the stamp, before package-cache writes) widen the windows; three staged schedules hold one command at a failpoint (about to build the linker / linker built, not stamped / stamped, not executed) until the monitor sees the other command's link step blocked in flock(2) on the linker lock (/proc/<pid>/task/*/syscall), then release it. Oracles: every command exits 0 and its binary's sha256 equals the same command's isolated build; every linker digest executed (link.exec events) equals the digest of a completely built linker (link.build.end) or of the pre-existing one; " +
 		"per cache key all writers wrote the same bytes; the recorded package-cache history (get/put intervals from one CLOCK_MONOTONIC) is linearizable against a per-key register model (porcupine, 60 s budget, timeout => inconclusive); no garble temp entries remain in the shared TMPDIR. " +
 		"distinct_nontrivial = distinct (scenario, overlap class) where >=2 top-level commands had link steps or package-cache operations on the same key overlapping in time.")
 	c.Assume("no cache trim deletes entries during a scenario (entries are minutes old; trims remove entries older than days)", "isolated reference builds are reproducible (C03)")
@@ -136,8 +179,9 @@ func checkC17(c *Ctx) {
 		{Name: "identical-x2-fully-cold", State: "fully-cold", Cmds: []concCmd{{"A", K0, nil, sleepy}, {"A", K0, nil, ""}}},
 		// Staged schedules: the second command reaches the linker protocol exactly while the first one sits
 		// between "linker built" and "linker stamped/executed".
-		{Name: "staged-second-arrives-after-linker-build", State: "warm-nolinker", Cmds: []concCmd{{"A", K0, nil, "link.afterBuild=sleep:9000"}, {"A", K0, nil, ""}}, After: map[int]string{1: "0:link.build.end"}},
-		{Name: "staged-second-arrives-after-stamp", State: "warm-nolinker", Cmds: []concCmd{{"A", K0, nil, "link.afterStamp=sleep:5000;toolexec.beforeExec.link=sleep:4000"}, {"B", K0, nil, ""}}, After: map[int]string{1: "0:link.stamp"}},
+		{Name: "staged-second-arrives-after-linker-build", State: "warm-nolinker", Cmds: []concCmd{{"A", K0, nil, "link.afterBuild=hold:240000"}, {"A", K0, nil, ""}}, After: map[int]string{1: "0:link.build.end"}, Release: map[int]string{0: "link.afterBuild:1"}},
+		{Name: "staged-second-arrives-after-stamp", State: "warm-nolinker", Cmds: []concCmd{{"A", K0, nil, "link.afterStamp=hold:240000;toolexec.beforeExec.link=sleep:1500"}, {"B", K0, nil, ""}}, After: map[int]string{1: "0:link.stamp"}, Release: map[int]string{0: "link.afterStamp:1"}},
+		{Name: "staged-second-arrives-during-linker-build", State: "stale-stamp", Cmds: []concCmd{{"A", K0, nil, "link.beforeBuild=hold:240000"}, {"B", K1, nil, ""}}, After: map[int]string{1: "0:link.build.begin"}, Release: map[int]string{0: "link.beforeBuild:1"}},
 	}
 	if !c.Quick() {
 		base := scenarios
@@ -219,8 +263,33 @@ func checkC17(c *Ctx) {
 				results[ci].r = works[ci].garbleBuild(g, box, cmd.Cfg, results[ci].bin, env, cmd.Extra...)
 			}(ci, cmd)
 		}
+		staged := map[string]string{}
+		var smu sync.Mutex
+		for ci, rel := range sc.Release {
+			wg.Add(1)
+			go func(ci int, rel string) {
+				defer wg.Done()
+				point, other, _ := strings.Cut(rel, ":")
+				j, _ := strconv.Atoi(other)
+				<-start
+				st := linkStepState(results[j].logDir, 200*time.Second)
+				os.WriteFile(filepath.Join(results[ci].logDir, "release-"+point), nil, 0o644)
+				smu.Lock()
+				staged[point] = st
+				smu.Unlock()
+			}(ci, rel)
+		}
 		close(start)
 		wg.Wait()
+		for point, st := range staged {
+			c.Count("staged_release_"+st, 1)
+			if st == "blocked" {
+				cmu.Lock()
+				classes[sc.Name+"|held-at-"+point+"-while-other-waits-on-lock"]++
+				cmu.Unlock()
+				c.Nontrivial(sc.Name + "|held-at-" + point + "-while-other-waits-on-lock")
+			}
+		}
 		files := func() map[string]string {
 			m := map[string]string{"scenario.json": jsonStr(sc)}
 			for ci := range sc.Cmds {
